@@ -19,6 +19,7 @@ that solver"):
   tth      tth = 2 asin(lambda sintl(cell, hkl)), tth2 = 2 asin(|g| lambda / (2 tau))
 """
 import ast
+from fractions import Fraction
 
 from xfabsa import core, numeric as N, rotref as RR
 from xfabsa.core import AnalysisError
@@ -95,7 +96,7 @@ class SolverOracle:
         sg = angle_range_sign(d)
         if sg is not None:
             return sg
-        from props import angles
+        from xfabsa import angles
         dec = angles.decompose(d) if not d.is_const() else None
         if dec is not None and dec[0] and all(a in ATOM_ARGS and ATOM_ARGS[a][0] in angles.RANGES for _c, a in dec[0]):
             # `omega > pi` for an omega that is a sum of principal values: the ranges decide it or it is a case distinction
@@ -262,8 +263,11 @@ def analyse_general_like(ctx, mod, short, solver, builder_call, half_angle):
     # which vector is rotated: tools g_w itself (asserted length), laue the rescaled one
     gu = gv
     if True:
-        asserts = [t[1] for t in ev.trace if t[0] == "assert"]
-        ctx.check(any("sin" in a and "dot" in a and "twoth" in a for a in asserts), "C09:length:%s.%s" % (short, solver),
+        # by value: some assertion bounds |g.g - sin^2(twoth/2)| by a small constant
+        gg_ = gv[0] * gv[0] + gv[1] * gv[1] + gv[2] * gv[2]
+        want_ = func_atom("abs", gg_ - N.ref("sin(tw/2)*sin(tw/2)", {"tw": tw}))
+        bands = [t for t in ev.trace if t[0] == "assert-band"]
+        ctx.check(any(scalar(q_).equals(want_) and 0 < t_ <= Fraction(1, 1000) for _k, q_, t_ in bands), "C09:length:%s.%s" % (short, solver),
                   "no assertion that |g|^2 = sin^2(twoth/2)", where)
     gg = gu[0] * gu[0] + gu[1] * gu[1] + gu[2] * gu[2]
     # builder at a generic angle
@@ -279,7 +283,7 @@ def analyse_general_like(ctx, mod, short, solver, builder_call, half_angle):
     A, B, C0 = lin
     if len(omega) != 2:
         return
-    from props import angles
+    from xfabsa import angles
     cs = []
     paths = getattr(orc, "paths", None) or [(out, orc, ev)]
     for pk, (outp, orcp, _evp) in enumerate(paths):
